@@ -33,6 +33,8 @@ if [ -n "$FAKE_KILL" ]; then kill -9 $$; fi
 exit ${FAKE_RC:-0}
 """
 
+RAW_STDERRS = [b"\x81\x8d\x8f\x90\x9d bad label\n", b"Error evaluating field '/data/q1': \x81\xe9\n", b"warning: \xff\xfe \x90\n",
+               b"java.lang.RuntimeException: \x9d /data/household-size > 3\n", bytes(range(128, 256)) + b"\n"]
 STDERRS = [
     "", "warning: something\n", "Error evaluating field '/data/q1': bad\n/data/g/q-1 is wrong\n",
     "org.javarosa.xform.parse.XFormParseException: Cycle detected /data/a/b\n\tat org.javarosa.Foo.bar(Foo.java:12)\n\tat x.y(Z.java:3)\nCaused by: x\n",
@@ -145,7 +147,7 @@ class Sandbox:
         tempfile.tempdir = str(self.tmp)
         os.environ["FAKE_RC"] = str(rc)
         ef = self.root / "stderr.txt"
-        ef.write_bytes(err.encode())
+        ef.write_bytes(err if isinstance(err, bytes) else err.encode())
         os.environ["FAKE_STDERR_FILE"] = str(ef)
         for k, v in (("FAKE_KILL", "1" if kill else None), ("FAKE_SLEEP", sleep)):
             if v is None:
@@ -299,8 +301,13 @@ def oracle(seed, tier, searching=False):
             rc = rng.choice([0, 0, 1, 2, 3, 143, 255])
             kill = rng.random() < 0.1
             err = rng.choice(STDERRS)
+            raw = None
+            if rng.random() < 0.25:
+                # a JVM on a legacy console code page: output that is not UTF-8, every byte value included (decoded as latin-1, never an error)
+                raw = rng.choice(RAW_STDERRS)
+                err = raw.decode("latin-1")
             md = rng.choice([MD_OK, MD_WARN, MD_BAD, MD_ITEMS])
-            sb.set(java, rc, err, kill=kill)
+            sb.set(java, rc, raw if raw is not None else err, kill=kill)
             n += 1
             keys.add((java, rc, kill, err, md))
             want = "OSError" if not java else ("ODKValidateError" if (rc > 0 and not kill) else "ok")
